@@ -15,6 +15,7 @@
 #include <boost/property_tree/ptree.hpp>
 #include <vf/hooks.hpp>
 #include <vf/mpi.hpp>
+#include <vf/dense.hpp>
 #include <Eigen/Dense>
 
 namespace c12 {
